@@ -2328,3 +2328,133 @@ def run_c10(ctx):
 
 
 REGISTRY["C10"] = dict(module="Properties_C10", run=run_c10)
+
+
+# ------------------------------------------------------------------------------------------
+# C02: grammar
+import refparse
+
+
+def tnode_sig(n, with_line=True):
+    return (n.name, n.ty, n.fmt, n.val, n.line if (with_line and n.name != "-") else None,
+            tuple(tnode_sig(k, with_line) for k in n.kids))
+
+
+def c02_oracle(script, rec):
+    bad = died(script, rec)
+    al = align(script, rec["impl"])
+    ov = False
+    cur = None
+    for op, out in al:
+        f = op.split(" ")
+        if f[0] == "option" and f[1] == "128":
+            ov = f[2] != "0"
+        elif f[0] == "options":
+            ov = bool(int(f[1]) & 128)
+        elif f[0] == "reads":
+            cur = (unhx(f[1]) or b"", out[0] if out else None)
+        elif op == "dump" and cur:
+            text, r = cur
+            cur = None
+            if b"\0" in text:
+                continue
+            exp = refparse.parse(text, ov)
+            root, _, err, _ = parse_dump(out)
+            if exp[0] == "skip" or root is None:
+                continue
+            if exp[0] == "ok":
+                if r != "R i1":
+                    bad.append("text %r is derivable from the documented grammar but the read failed (%s line %s)" % (
+                        text[:80], unhx(err[1]) if err and err[1] != "-" else None, err[3] if err else None))
+                elif tnode_sig(root) != refparse.sig(exp[1]):
+                    bad.append("text %r: the configuration built differs from what the text denotes" % text[:80])
+            else:
+                if r == "R i1":
+                    bad.append("text %r is not derivable (%s at line %d) but the read succeeded" % (text[:80], exp[1], exp[2]))
+                else:
+                    got = (unhx(err[1]).decode("latin-1") if err[1] != "-" else None, int(err[3]))
+                    if got != (exp[1], exp[2]):
+                        if exp[1] == got[0] == "mismatched element type in array" and got[1] > exp[2] and is_string_mismatch(text, ov):
+                            bad.append("mismatched STRING element reported at line %d, the element is at line %d (text %r)" % (
+                                got[1], exp[2], text[:60]))
+                        else:
+                            bad.append("text %r: expected parse error '%s' at line %d, got '%s' at line %d" % (
+                                text[:80], exp[1], exp[2], got[0], got[1]))
+    return bad
+
+
+def is_string_mismatch(text, ov):
+    """F4 class: the first mismatching array element is a string"""
+    toks = [t for t in speclex.tokens(text) if t.startswith("K ")]
+    depth_arr = False
+    first_ty = None
+    for t in toks:
+        k = t.split(" ")[1]
+        if k == "p[":
+            depth_arr, first_ty = True, None
+        elif k == "p]":
+            depth_arr = False
+        elif depth_arr and k != "p,":
+            ty = "s" if k.startswith("sh") else k[0]
+            ty = {"x": "i", "X": "l"}.get(ty, ty)
+            if first_ty is None:
+                first_ty = ty
+            elif ty != first_ty:
+                return ty == "s"
+    return False
+
+
+def c02_cases(rng, maxlen, spellings, nrandom):
+    texts = []
+    seqs = gen_text.viable_sequences(maxlen)
+    stats = {"token_sequences": len(seqs), "viable": sum(1 for s, v in seqs if v)}
+    for seq, viable in seqs:
+        for k in range(spellings):
+            texts.append(gen_text.render(rng, seq, linebreaks=(k > 0)))
+    for _ in range(nrandom):
+        t = gen_text.rand_config(rng, size=rng.choice([3, 8, 20]))
+        r = rng.random()
+        if r < 0.4:
+            t = gen_text.mutate_tokens(rng, t)
+        texts.append(t)
+    # semantic errors at known places
+    texts += [b"a = 1;\nb = 2;\n\na = 3;", b"g = { x = 1;\n y = 2;\n x = 3; };", b"a = [ 1, 2,\n 3.0 ];", b"a = [ 1,\n\n\"s\" ];",
+              b"a = [ \"s\", \"t\"\n\n, 1 ];", b"a = [ 1, \"s\"\n\n];", b"a = ( 1, \"s\", [ true, 0 ] );", b"a = [ 1, 2L ];", b"a = [ 0x1, 2 ];",
+              b"a = [ 1L, 0x2L ];", b"x = { y = { z = [ ]; }; };", b"a = \"p\" \"q\"\n\"r\";", b"a : 1, b = 2 c = 3;"]
+    cases = []
+    per = 12
+    for ov in (0, 1):
+        for i in range(0, len(texts), per):
+            body = ["init", "option 128 %d" % ov]
+            for t in texts[i:i + per]:
+                body += ["reads %s" % hx(t), "dump"]
+            cases.append("\n".join(body) + "\n")
+    stats["texts"] = len(texts)
+    return cases, stats
+
+
+def run_c02(ctx):
+    res = Result()
+    rc = replay_cases(ctx)
+    if rc is not None:
+        cases, stats = rc, {}
+    else:
+        cases, stats = c02_cases(ctx.rng, 5 if ctx.tier == "quick" else 7, 2 if ctx.tier == "quick" else 4,
+                                 300 if ctx.tier == "quick" else 6000)
+        res.exhaustive = True
+    res.rule = ("exhaustively every viable token-kind prefix up to length %s over 14 token kinds and each one-token invalid "
+                "extension, each rendered in several concrete spellings (whitespace, three comment styles, ;/,/nothing, =/:, "
+                "number spellings, split strings, escapes, line breaks at every gap), plus grammar-based random texts with "
+                "token-level mutations, overrides off and on; return value, full tree with types/values/formats/source lines, "
+                "error text and line compared with the model and, model-free, with a reference parser written from the "
+                "manual's grammar (pygen/refparse.py)" % (5 if ctx.tier == "quick" else 7))
+    res.distinct = len(set(cases))
+    res.distribution = stats
+    res.samples = [cases[len(cases) // 3][:500]] if cases else []
+    keep = lambda l: l if l.startswith(("R ", "T ", "E ")) else None
+    correspond(ctx, res, cases, line_filter=keep, oracle=c02_oracle,
+               known=lambda s, r, o: match_known("C02", s, r, o), per_proc=6)
+    return res
+
+
+REGISTRY["C02"] = dict(module="Properties_C02", run=run_c02)
